@@ -2,5 +2,6 @@ SPECIFICATION Spec
 CONSTANTS
   MaxN = 4
   Names = {"a", "b"}
+  Mode = "pairs"
 INVARIANT EncodingOK
 INVARIANT Log
